@@ -94,6 +94,7 @@ func (e *Enum) setIsIota() {
 	values := make([]int64, len(e.Members))
 	seen := make(map[int64]bool)
 	var max int64 = -1
+	nbExported := 0
 	for i, member := range e.Members {
 		v, ok := member.int64()
 		if !ok || v < 0 {
@@ -103,12 +104,14 @@ func (e *Enum) setIsIota() {
 		if !member.Const.Exported() {
 			continue // ignore non exported const
 		}
+		nbExported++
 		seen[v] = true
 		if max < v {
 			max = v
 		}
 	}
-	if len(seen) != int(max+1) {
+	// no gap and no duplicated value
+	if len(seen) != int(max+1) || len(seen) != nbExported {
 		return
 	}
 
